@@ -127,7 +127,7 @@ class Ctx:
 
     def atom_of_ref(self, x):
         d = x.decl
-        if d.get("k") == "parm":
+        if d.get("k") == "parm" and not x.is_lambda_parm():
             return "p:%s" % d["n"]
         return "l:%s#%d" % (d["n"], d["id"])
 
@@ -1269,7 +1269,7 @@ def _free_atoms(ctx, nodes):
                 if d.get("id") in ctx.loopvars:
                     continue
                 if d.get("k") == "parm" and x.tc in ("int", "bool", "enum"):
-                    if ("id", d["id"]) in ctx._written_ids():
+                    if ("id", d["id"]) in ctx._written_ids() or x.is_lambda_parm():
                         bad = True
                     out.add("p:%s" % d["n"])
                 elif d.get("k") == "local" and x.tc in ("int", "bool", "enum"):
